@@ -46,6 +46,7 @@ def run(tier, v):
     K = set(vlib.known_devs(PID))
     fams = ["start", "hdrs", "ows", "cookie", "lang", "many", "dup", "long", "common"]
     n = n_heads = states = trans = 0
+    n_trickle = [0]
     samples = []
     ref_none = {}
     for fam in fams:
@@ -73,6 +74,7 @@ def run(tier, v):
         cvec = os.path.join(wd, "conn-%s.ndjson" % fam)
         cmeta = []
         conns = []
+        trickled = set()
         for i, e in exp.items():
             if tier != "thorough" and fam in ("hdrs", "lang", "ows") and i % 4:
                 continue
@@ -82,14 +84,25 @@ def run(tier, v):
             data = c10.frame(cip, sip, cp, 80, 101, 1, 0x18, head, ipid=2) if e["kind"] == "req" else c10.frame(sip, cip, 80, cp, 1, 101, 0x18, head, ipid=2)
             conns.append([syn.hex(), data.hex()])
             cmeta.append(i)
+            # a long head that trickles in, every octet a segment of its own (a slow or adversarial sender): same report
+            hb = ("\r\n".join(e["lines"]) + "\r\n\r\n").encode()
+            if 2100 < len(hb) < 6000 and n_trickle[0] < (6 if tier == "thorough" else 2) and e["kind"] in ("req", "resp"):
+                n_trickle[0] += 1
+                cp2 = 20000 + n_trickle[0]
+                segs = [c10.frame(cip, sip, cp2, 80, 100, 0, 0x02, ipid=1).hex()]
+                for k_ in range(len(hb)):
+                    segs.append((c10.frame(cip, sip, cp2, 80, 101 + k_, 1, 0x18, hb[k_:k_ + 1], ipid=2 + k_ % 60000) if e["kind"] == "req" else c10.frame(sip, cip, 80, cp2, 1 + k_, 101, 0x18, hb[k_:k_ + 1], ipid=2 + k_ % 60000)).hex())
+                conns.append(segs)
+                cmeta.append(i)
+                trickled.add(len(conns) - 1)
         vlib.write_ndjson(cvec, [{"id": 0, "op": "conns", "conns": conns}])
         cout = os.path.join(wd, "connobs-%s.ndjson" % fam)
         vlib.run_hv("http", cvec, cout)
-        for rows, i in zip(next(vlib.read_ndjson(cout))["out"], cmeta):
+        for ci_, (rows, i) in enumerate(zip(next(vlib.read_ndjson(cout))["out"], cmeta)):
             e = exp[i]
             n += 1
             last = rows[-1]
-            ctx = {"family": fam, "kind": e["kind"], "head_lines": e["lines"][:12], "via": "process_ipv4_packet (one segment after the SYN)"}
+            ctx = {"family": fam, "kind": e["kind"], "head_lines": e["lines"][:12], "via": "process_ipv4_packet (one segment after the SYN)" if ci_ not in trickled else "process_ipv4_packet (the head in %d segments of one octet)" % (len(rows) - 1)}
             if last["r"] == "panic":
                 v.violation(dict(ctx, observed="panic: " + last["e"]))
                 continue
